@@ -3,9 +3,13 @@
 Proof part: Props/C03.v (see its header).  Correspondence (Corr/C03.v): generated worlds (domain text + states + calls),
 the implementation's answers (applicability, successor in the observed / forced visiting order, exception class of a
 refusal, forced successor) against the model run in the SAME order and against the spec's successor.
-Streams: corpus (witnesses of findings), random typed domains (pddlgen), the same with a quantified 'when' condition
-planted (finding D40), with an inconsistent effect planted (no crash; the spec is silent, the model still binds when
-the order was observed), and a small scope enumerated exhaustively (thorough) or sampled (quick)."""
+Streams: corpus (witnesses of findings), the repository's own domains, random typed domains (pddlgen), and planted classes:
+read-write (conditional / universal effects read what the unconditional group writes), guard-shape (preconditions of one
+kind only, harness/guardgen.py), quantified-constant (D30), a quantified 'when' condition (D40), delete+add of one atom,
+inconsistent groups (judged by the frame/membership oracle of Proofs/C03_Weak.v and compared exactly with the model in the
+observed order), and a small scope enumerated exhaustively (thorough) or sampled (quick).
+Round 3: CALL SEQUENCES on one Operator object (chains / spreads / mixtures, two units each: states read back at once and
+again after the last call) in every generated stream and from every state of the small scope."""
 import itertools
 import json
 import random
@@ -762,8 +766,11 @@ def run(args):
     for hs in hashseeds:
         # further hash seeds only change the NATURAL iteration order of the hash sets (forced permutations are already
         # exhaustive): they re-run every stream, but only every 4th body of the small scope
+        # ... and there only the probes / sequences that run in the natural order
         all_worlds = base_worlds if hs == hashseeds[0] else \
-            [w for i, w in enumerate(base_worlds) if w["stream"] != "small-scope" or i % 6 == hs % 6]
+            [dict(w, probes=[p for p in w["probes"] if p.get("perm") is None],
+                  seqs=[q for q in w.get("seqs", []) if q.get("perm") is None], _light=None)
+             for i, w in enumerate(base_worlds) if w["stream"] != "small-scope" or i % 6 == hs % 6]
         # in batches: results of a batch are released before the next one (the thorough tier has ~10^5 probes)
         for b0 in range(0, len(all_worlds), BATCH):
             worlds = all_worlds[b0:b0 + BATCH]
